@@ -416,27 +416,47 @@ func (c *Ctx) ruleI3(kinds map[int64]string) {
 	numeric := map[string]bool{"Int": true, "Int8": true, "Int16": true, "Int32": true, "Int64": true, "Uint": true, "Uint8": true, "Uint16": true, "Uint32": true, "Uint64": true, "Float32": true, "Float64": true}
 	// getNumType
 	tagOf := map[string]int64{}
+	numericKinds := []string{"int", "int8", "int16", "int32", "int64", "uint", "uint8", "uint16", "uint32", "uint64", "float32", "float64"}
+	classOfKind := func(k string) string {
+		switch {
+		case strings.HasPrefix(k, "uint"):
+			return "uint"
+		case strings.HasPrefix(k, "int"):
+			return "int"
+		}
+		return "float"
+	}
+	tagOfKind := map[string]int64{}
 	if f := c.MustFn("I3-getNumType", "internal/core", "", "getNumType"); f != nil {
 		x := c.Index(f)
-		eachInstr(f, func(in ssa.Instruction) {
-			r, ok := in.(*ssa.Return)
-			if !ok {
-				return
-			}
-			k, isK := constInt(x.Origin(r.Results[0]))
-			if !isK {
-				return
-			}
-			for _, g := range x.GuardsOf(r.Block()) {
-				if hc, isCall := x.Origin(g.Cond).(*ssa.Call); isCall && g.Pol && fnIs(hc.Call.StaticCallee(), "strings", "", "HasPrefix") {
-					if p, isS := constString(hc.Call.Args[1]); isS {
-						tagOf[p] = k
-					}
+		// the tag returned for each numeric kind, whichever way the kind is classified (name
+		// prefixes, a switch over reflect.Kind, a class helper)
+		consistent := true
+		for _, k := range numericKinds {
+			env := &kenv{x: x, kindOf: map[ssa.Value]string{ssa.Value(f.Params[0]): k}}
+			var tags []int64
+			for _, r := range env.explore(f, kinds, nil) {
+				e2 := &kenv{x: x, kindOf: env.kindOf}
+				_ = e2
+				if kc, isK := constInt(x.Origin(r.ret.Results[0])); isK {
+					tags = append(tags, kc)
+				} else {
+					consistent = false
 				}
 			}
-		})
-		ok := len(tagOf) == 3 && tagOf["int"] != tagOf["uint"] && tagOf["uint"] != tagOf["float"] && tagOf["int"] != tagOf["float"]
-		c.Check("I3-getNumType", "getNumType#prefix-to-tag", ok, f.Pos(), "kind prefixes int / uint / float must map to three distinct tags: %v", tagOf)
+			if len(tags) != 1 {
+				consistent = false
+				continue
+			}
+			tagOfKind[k] = tags[0]
+			cls := classOfKind(k)
+			if t, seen := tagOf[cls]; seen && t != tags[0] {
+				consistent = false
+			}
+			tagOf[cls] = tags[0]
+		}
+		ok := consistent && len(tagOf) == 3 && tagOf["int"] != tagOf["uint"] && tagOf["uint"] != tagOf["float"] && tagOf["int"] != tagOf["float"]
+		c.Check("I3-getNumType", "getNumType#prefix-to-tag", ok, f.Pos(), "the signed, unsigned and float kinds must map to three distinct tags, all kinds of a class to the same one: %v", tagOf)
 	}
 	classOfTag := map[int64]string{}
 	for p, t := range tagOf {
@@ -446,6 +466,7 @@ func (c *Ctx) ruleI3(kinds map[int64]string) {
 	if f := c.MustFn("I3-ParamsTypeChange", "internal/core", "", "ParamsTypeChange"); f != nil {
 		x := c.Index(f)
 		rows := map[string]bool{}
+		reachP := c.srcClassesAt(f, ssa.Value(f.Params[1]), kinds, tagOfKind)
 		eachInstr(f, func(in ssa.Instruction) {
 			st, ok := in.(*ssa.Store)
 			if !ok {
@@ -475,38 +496,10 @@ func (c *Ctx) ruleI3(kinds map[int64]string) {
 			rows[key] = true
 			// target kind == K
 			okT := basicName(typ) == strings.ToLower(kname)
-			// accessor matches the tag guards
-			okTag := false
+			// the accessor is the one of the source's class: the classes of the argument kinds
+			// with which this conversion is reached (by whatever test of getNumType's tag)
 			wantCls := accessorClass[acc]
-			pos, negs := "", map[string]bool{}
-			for _, g := range x.GuardsOf(st.Block()) {
-				bo, isB := g.Cond.(*ssa.BinOp)
-				if !isB || bo.Op != token.EQL {
-					continue
-				}
-				tc, isCall := x.Origin(bo.X).(*ssa.Call)
-				if !isCall || !calleeIs(tc, pCore, "", "getNumType") {
-					continue
-				}
-				k, _ := constInt(bo.Y)
-				if g.Pol {
-					pos = classOfTag[k]
-				} else {
-					negs[classOfTag[k]] = true
-				}
-				// the tag is computed from the same parameter
-				if tu, isU := x.Origin(tc.Call.Args[0]).(*ssa.UnOp); isU {
-					if tia, isIA := tu.X.(*ssa.IndexAddr); !isIA || !x.sameValue(tia.Index, ia.Index) || x.Origin(tia.X) != ssa.Value(f.Params[1]) {
-						pos = "?"
-					}
-				}
-			}
-			if pos != "" {
-				okTag = pos == wantCls
-			} else {
-				// the else branch: every other class excluded
-				okTag = len(negs) == 2 && !negs[wantCls]
-			}
+			okTag := oneClass(reachP[st.Block()]) == wantCls
 			// the value read is the same parameter i, and the kind tested is In(i) of the same i
 			okIdx := false
 			if ru, isU := x.Origin(recv).(*ssa.UnOp); isU {
@@ -616,6 +609,7 @@ func (c *Ctx) ruleI3(kinds map[int64]string) {
 		}
 		x := c.Index(f)
 		k := 0
+		reachS := c.srcClassesAt(f, ssa.Value(f.Params[2]), kinds, tagOfKind)
 		eachInstr(f, func(in ssa.Instruction) {
 			name, cc := reflectMethod(in)
 			if cc == nil || setterGroup[name] == "" {
@@ -632,15 +626,11 @@ func (c *Ctx) ruleI3(kinds map[int64]string) {
 			}
 			acc, _, _ := x.accessorOf(cc.Args[1])
 			srcCls := accessorClass[acc]
-			// source prefix guards
-			pos := ""
+			// the class of the source kinds with which this setter is reached ("" when more than
+			// one class gets here: the fall-through of the table)
+			pos := oneClass(reachS[in.Block()])
 			nonNeg := false
 			for _, g := range x.GuardsOf(in.Block()) {
-				if hc, isCall := x.Origin(g.Cond).(*ssa.Call); isCall && g.Pol && fnIs(hc.Call.StaticCallee(), "strings", "", "HasPrefix") {
-					if p, isS := constString(hc.Call.Args[1]); isS {
-						pos = p
-					}
-				}
 				if bo, isB := g.Cond.(*ssa.BinOp); isB && bo.Op == token.GEQ && g.Pol {
 					a2, _, _ := x.accessorOf(bo.X)
 					isZero := false
@@ -673,6 +663,55 @@ func (c *Ctx) ruleI3(kinds map[int64]string) {
 	c.Min("I3-setters", 20)
 	c.Min("I3-ParamsTypeChange", 37)
 	c.Min("I3-GetWantedValue", 10)
+}
+
+
+// srcClassesAt explores f once per numeric kind of the value src (a parameter, or a slice
+// parameter whose elements are the values) and lists, per block, the classes (int, uint,
+// float) of the kinds with which the block is reached. Whatever way f tells the classes
+// apart — prefixes of the kind or type name, a switch over reflect.Kind, a class computed
+// by a helper, the tag of getNumType — is followed by kind-specialised constant propagation.
+func (c *Ctx) srcClassesAt(f *ssa.Function, src ssa.Value, kinds map[int64]string, tagOfKind map[string]int64) map[*ssa.BasicBlock]map[string]bool {
+	x := c.Index(f)
+	out := map[*ssa.BasicBlock]map[string]bool{}
+	for _, k := range []string{"int", "int8", "int16", "int32", "int64", "uint", "uint8", "uint16", "uint32", "uint64", "float32", "float64"} {
+		cls := "float"
+		if strings.HasPrefix(k, "uint") {
+			cls = "uint"
+		} else if strings.HasPrefix(k, "int") {
+			cls = "int"
+		}
+		env := &kenv{x: x, kindOf: map[ssa.Value]string{src: k}}
+		kk := k
+		env.callInt = func(call *ssa.Call) (int64, bool) {
+			if !calleeIs(call, pCore, "", "getNumType") || len(call.Call.Args) != 1 {
+				return 0, false
+			}
+			if r := env.rootValue(call.Call.Args[0]); r == nil {
+				return 0, false
+			}
+			t, ok := tagOfKind[kk]
+			return t, ok
+		}
+		env.explore(f, kinds, nil)
+		for b := range env.visited {
+			if out[b] == nil {
+				out[b] = map[string]bool{}
+			}
+			out[b][cls] = true
+		}
+	}
+	return out
+}
+
+func oneClass(m map[string]bool) string {
+	if len(m) != 1 {
+		return ""
+	}
+	for k := range m {
+		return k
+	}
+	return ""
 }
 
 func kindNames(kinds map[int64]string, ks []int64) []string {
